@@ -206,6 +206,16 @@ def ekf_driver_source(defn, *, with_ekf=True, header="gen.h", ns="gen", managed=
         for i, n in enumerate(st):
             A(f"    if (int((&c.{n}() - c.data.data()) / (N + 1)) != SL[{i}] || int((&c.{n}() - c.data.data()) % (N + 1)) != 0) fail(\"Covariance.{n}\");")
         A("  }")
+        # the read-only overloads (a const StateAndVariance& handed to a logger) name the same entries
+        A("  { Covariance c; for (int i = 0; i < N; ++i) for (int j = 0; j < N; ++j) c.data(i, j) = 1000.0 + 37.0 * i + j;")
+        A("    const Covariance& cc = c;")
+        for i, n in enumerate(st):
+            A(f"    if (cc.{n}() != c.data(SL[{i}], SL[{i}])) fail(\"const Covariance.{n}\");")
+        A("  }")
+        A("  { double v[N > 0 ? N : 1]; for (int i = 0; i < N; ++i) v[i] = 401.0 + i; const State s = mk_state(v);")
+        for i, n in enumerate(st):
+            A(f"    if (s.{n}() != v[{i}]) fail(\"const State.{n}\");")
+        A("  }")
         A("  { State s; if (!(s.data == State::DataT::Zero())) fail(\"State default is not zero\"); }")
     A("}")
     cal_arg = ", CALV" if Kn else ""
